@@ -13,7 +13,7 @@ use crate::{
     bind,
     corpus::{mode_name, norm_debug, real_encode, Corpus, Enc},
     ctx::{guarded, hex, panic_site, Ctx, Part, Tier},
-    refspec::{ascii_text_enc, FieldMap, Val},
+    refspec::{FieldMap, Val},
     rng::Rng,
 };
 
@@ -157,14 +157,32 @@ fn apply(b: Builder, m: &mut Model, c: &Call, remote: SocketAddr, local: SocketA
 }
 
 fn random_call(r: &mut Rng) -> Call {
-    let name = |r: &mut Rng| -> String { (0..r.usize_below(16)).map(|_| (b'a' + r.below(26) as u8) as char).collect() };
+    // names up to 16 ENCODED bytes: ASCII, or text whose UTF-8 length differs from its wire length
+    let name = |r: &mut Rng| -> String {
+        let pool: &[char] = match r.below(4) {
+            0 | 1 => &['a', 'b', 'x', 'Z', '-', '9'],
+            2 => &['ä', 'ü', 'é', 'ß', 'a', '-'],
+            _ => &['Т', 'е', 'л', 'м', 'ラ', 'ッ', 'a'],
+        };
+        let mut s = String::new();
+        for _ in 0..r.usize_below(17) {
+            let mut t = s.clone();
+            t.push(*r.pick(pool));
+            if crate::corpus::enc_len(&t) > 16 {
+                break;
+            }
+            s = t;
+        }
+        s
+    };
+    let ascii = |r: &mut Rng| -> String { (0..r.usize_below(17)).map(|_| (b'a' + r.below(26) as u8) as char).collect() };
     match r.below(17) {
         0..=4 => Call::Flag(r.usize_below(10), r.chance(1, 2)),
         5 => Call::FlagsWholesale((0..10).map(|_| r.chance(1, 2)).collect()),
         6 => Call::Prefix(if r.chance(1, 4) { None } else { Some(r.range(0x21, 0x7e) as u8) }),
         7 => Call::Interval(if r.chance(1, 4) { None } else { Some(r.below(65536)) }),
         8 => Call::IName(if r.chance(1, 4) { None } else { Some(name(r)) }),
-        9 => Call::Admin(if r.chance(1, 4) { None } else { Some(name(r)) }),
+        9 => Call::Admin(if r.chance(1, 4) { None } else { Some(ascii(r)) }),
         10 => Call::ReqI(r.below(256) as u8),
         11 => Call::Tcp,
         12 => Call::Udp(r.chance(1, 2)),
@@ -182,7 +200,7 @@ fn random_call(r: &mut Rng) -> Call {
 
 fn reference_image(c: &Corpus, m: &Model) -> Vec<u8> {
     let lay = c.spec.packet("ISI");
-    c.spec.encode(lay, &m.expected(), m.compressed, &ascii_text_enc).frame
+    c.spec.encode(lay, &m.expected(), m.compressed, &crate::corpus::real_text_enc).frame
 }
 
 /// isi() of the builder vs the reference model.
@@ -374,7 +392,7 @@ pub fn run(ctx: &mut Ctx) -> (&'static str, String, bool) {
                         calls.push(Call::Interval(Some(1000)));
                     }
                     if mask & 4 != 0 {
-                        calls.push(Call::IName(Some("verif".into())));
+                        calls.push(Call::IName(Some(if mask & 1 != 0 { "Rundenzähler-Süd".into() } else { "verif".into() })));
                     }
                     if mask & 8 != 0 {
                         calls.push(Call::Admin(Some("secret".into())));
